@@ -2302,7 +2302,8 @@ func (c *fctx) stateTuple(vars []string) string {
 // slice: the variables declared outside the loop and assigned inside it (plus
 // the call trace) are the loop state; the body maps a state and an element to
 // `Step.next state'` (also for continue), `Step.brk state'` or `Step.ret r`
-// (a return of the enclosing function).
+// (a return of the enclosing function; a range loop nested in the body passes
+// such a return on to the outer loop as `Step.ret r`).
 func (c *fctx) rangeLoop(x *ast.RangeStmt, rest []ast.Stmt) string {
 	if x.Tok != token.DEFINE && (x.Key != nil || x.Value != nil) {
 		fail("range with assignment to existing variables")
@@ -2439,10 +2440,15 @@ func (c *fctx) rangeLoop(x *ast.RangeStmt, rest []ast.Stmt) string {
 		}
 		loop := fmt.Sprintf("%s (σ := %s) (ρ := %s) %s %s fun st (%s : Int) (%s : %s) =>\n%s", fn, sigma, rho, collCode, c.stateTuple(vars), key, val, elT, indent(destr+mapDestr+body))
 		after := c.stmts(rest)
-		if bodyPartial {
-			return fmt.Sprintf("match %s with\n| none => none\n| some (.inr r) => «ret»r\n| some (.inl st) =>\n%s", loop, indent(destr+after))
+		retR := "«ret»r"
+		if c.loop != nil {
+			// a loop nested in a loop body: a return from inside it leaves the outer loop too
+			retR = "«step»(.ret r)"
 		}
-		return fmt.Sprintf("match %s with\n| .inr r => «ret»r\n| .inl st =>\n%s", loop, indent(destr+after))
+		if bodyPartial {
+			return fmt.Sprintf("match %s with\n| none => none\n| some (.inr r) => %s\n| some (.inl st) =>\n%s", loop, retR, indent(destr+after))
+		}
+		return fmt.Sprintf("match %s with\n| .inr r => %s\n| .inl st =>\n%s", loop, retR, indent(destr+after))
 	})
 }
 
